@@ -33,8 +33,8 @@ ASSUMPTIONS = [
 DECIDING = [("bp", "exact_on_tree"), ("bp", "marginal"), ("bp", "gauge_preserves"), ("bp", "schedule_independent")]
 SUITE = ["tests/test_tensor/test_belief_propagation"]
 MANIFEST = dict(
-    technique="runtime postcondition monitors on every belief-propagation entry point (contract_d1bp/d2bp/hd1bp/hv1bp/l1bp/l2bp, D2BP/L2BP partial traces, gauge/compress functions): independent union-find acyclicity test + independent dense reference value / squared norm / reduced density matrices, judged only when the run reports convergence; differential check across update schedules",
-    text="On random acyclic (hyper)graphs every BP flavour must return the exact contraction value or squared norm, BP marginals must equal exact reduced density matrices, BP gauging and untruncated BP compression must leave the dense tensor unchanged, and different damping / update / local-convergence settings must give the same converged answer.",
+    technique="runtime postcondition monitors on every belief-propagation entry point (contract_d1bp/d2bp/hd1bp/hv1bp/l1bp/l2bp, gauge/compress functions) plus client-boundary oracles over call histories on the BP objects (contract / normalize / expansion / gate_ sequences, marginals, sampling probabilities): independent union-find acyclicity test + independent dense reference value / squared norm / marginals / reduced density matrices, judged only when the run reports convergence; differential check across update schedules",
+    text="On random acyclic (hyper)graphs every BP flavour must return the exact contraction value or squared norm - through the contract_*bp functions and through every way of reading it off a converged BP object (contract after normalize_tensors / normalize_message_pairs / normalize_messages, loop-series and generalized-loop expansions, with a stored exponent, after the object's own gate_); BP marginals (D2BP reduced density matrices, index and factor marginals of the hyper flavours, the probability reported by sample_d2bp / sample_hd1bp / sample_hv1bp) must equal the exact ones; BP gauging and untruncated BP compression must leave the dense tensor unchanged; different damping / update / local-convergence settings must give the same converged answer.",
     note="Networks limited to <= 2^20 reference elements.",
     ref="3/C14")
 
